@@ -285,6 +285,15 @@ Definition ls_init : lstate :=
   let '(ss, tasks) := poll w_init ss_init in mkLS ss w_init tasks [] [] [] [] [].
 Definition run_async (orc : list oracle_step) (fuel : nat) : outcome := run_loop fuel orc ls_init.
 
+(* The same loop started over a cache that already holds results (a second submission of the workflow with
+   rerun=True: every launched job is re-executed, but until its re-execution has replaced it the old result
+   is what Job.done sees).  w0 = the content of the cache.  Only the order of events is meaningful here:
+   the re-computed value is appended behind the stale one. *)
+Definition ls_init_warm (w0 : world) : lstate :=
+  let '(ss, tasks) := poll w0 ss_init in mkLS ss w0 tasks [] [] [] [] [].
+Definition run_async_warm (w0 : world) (orc : list oracle_step) (fuel : nat) : outcome :=
+  run_loop fuel orc (ls_init_warm w0).
+
 (* ---------------------------------------------------------------- the sequential loop (debug worker)
    for job in tasks: worker.run(job)  — runs to completion; a failing job raises out of the loop.  *)
 Fixpoint run_tasks (tasks : list job) (ss : sstate) (w : world) (errs : list job) (tr : list event)
@@ -407,6 +416,7 @@ Arguments finished {V}.
 Arguments error_names {V}.
 Arguments node_outputs {V}.
 Arguments event_log {V}.
+Arguments ls_init_warm {V}.
 
 (* ---------------------------------------------------------------- concrete instance used by the
    correspondence run: the harness's task body returns the tree [nid, x, inputs...] *)
